@@ -655,9 +655,15 @@ func NewServer(c Config) *Server {
 // Dial opens a new in-memory connection and returns the harness end; the
 // connection's Id (as logged) is name+"/harness".
 func (sv *Server) Dial(name string) *xport.End {
+	h, _ := sv.Dial2(name)
+	return h
+}
+
+// Dial2 also returns the library's end (for write hooks).
+func (sv *Server) Dial2(name string) (harness, lib *xport.End) {
 	h, l := xport.Pair(name)
 	sv.Srv.NewConn(l)
-	return h
+	return h, l
 }
 
 // ConnID is the Conn.Id the framework derives for a connection dialled with name.
